@@ -13,7 +13,14 @@ returns / raises (tokens by identity: a future handed back must come back as tha
 convention), and RE-BINDING of the owner named in the dotted path (`rebind`: a string patcher acts on what its name
 refers to at each `__enter__`, a patch.object patcher on the object given at construction).  Harness-level
 realisations of existing model notions: exotic argument objects, long argument lists, class decoration as a block
-style, BaseException-only block exits, more replacement variants, deep nesting."""
+style, BaseException-only block exits, more replacement variants, deep nesting.
+
+After the independent audit (AUDIT-lib.md): the observer checks WHICH object every successful `__enter__` / `start()`
+installs, for every replacement kind (`Mock.expectedTok`: a new mock / factory product per entry, the pair, the
+Wrapper, the caller's own object); `@asynq()` functions / classmethods / staticmethods are a replacement kind of their
+own (`Repl.asyncFn`: installed as they are, but they bind like the function they wrap); the signature defaults of the
+model (`Defaults.current`) are the ones of the tree (autospec=None), so `C19_spec_holds` has no hypothesis on the
+history; family `enterfail` is judged by a protocol model per activation style (`Mock.EnterFail.run`)."""
 import hashlib
 import json
 import random
@@ -21,29 +28,45 @@ import random
 PID = "C19"
 LEVEL = "proof"
 LEAN_MODULES = ["AsynqModel.Theorems.C19"]
-THEOREMS = [
+# Theorems with content of their own (what level_claimed.text in MANIFEST.json rests on) ...
+HEADLINE_THEOREMS = [
     "AsynqModel.Mock.C19_restore",
     "AsynqModel.Mock.C19_store_tracks_innermost",
     "AsynqModel.Mock.C19_block_restores",
+    "AsynqModel.Mock.C19_block_restores_across_rebind",
     "AsynqModel.Mock.C19_restore_nested_blocks",
     "AsynqModel.Mock.C19_restore_stopall",
+    "AsynqModel.Mock.C19_nested_blocks_nodup_necessary",
+    "AsynqModel.Mock.C19_stopall_nodup_necessary",
     "AsynqModel.Mock.C19_conventions_agree",
+    "AsynqModel.Mock.C19_asynq_function_replacement",
     "AsynqModel.Mock.C19_enter_installs",
+    "AsynqModel.Mock.C19_installed_object",
     "AsynqModel.Mock.C19_noncallable_as_is",
-    "AsynqModel.Mock.C19_exception_propagates",
+    "AsynqModel.Mock.C19_noncallable_as_is_own",
+    "AsynqModel.Mock.C19_spec_holds",
     "AsynqModel.Mock.C19_spec_holds_partial",
     "AsynqModel.Mock.C19_spec_holds_if_autospec_defaults_none",
-    "AsynqModel.Mock.C19_new_callable_counterexample",
+    "AsynqModel.Mock.C19_new_callable_asynq16_counterexample",
     "AsynqModel.Mock.C19_path_resolved_at_every_enter",
     "AsynqModel.Mock.C19_path_resolved_at_every_start",
     "AsynqModel.Mock.C19_object_target_fixed",
     "AsynqModel.Mock.C19_calls_through_name_reach_replacement",
+    "AsynqModel.Mock.EnterFail.C19_enter_failure_restores",
+    "AsynqModel.Mock.EnterFail.C19_enter_failure_needs_undo",
+    "AsynqModel.Mock.EnterFail.C19_enter_undo_only_matters_on_failure",
+]
+# ... and statements that HOLD BY CONSTRUCTION OF THE MODEL (one unfolding / a corollary of C19_conventions_agree; the model
+# has no way to say anything else: objects are immutable values, result kinds are never inspected, `exit` echoes its
+# flag).  They are kept as readable lemmas and audited like the others, but they are NOT evidence for the property: for
+# these four facts the content is the correspondence run (families `kinds`, `rebind`, `shared`, exits by exception).
+BY_CONSTRUCTION_THEOREMS = [
+    "AsynqModel.Mock.C19_exception_propagates",
     "AsynqModel.Mock.C19_result_object_untouched",
     "AsynqModel.Mock.C19_rebind_touches_no_host",
-    "AsynqModel.Mock.C19_noncallable_as_is_own",
     "AsynqModel.Mock.C19_shared_replacement_same_object",
-    "AsynqModel.Mock.EnterFail.C19_enter_failure_restores",
 ]
+THEOREMS = HEADLINE_THEOREMS + BY_CONSTRUCTION_THEOREMS
 BUILDS = {"quick": ["py"], "thorough": ["py", "cy"]}
 EXHAUSTIVE = {"quick": False, "thorough": True}
 CASE_TIMEOUT = 20
@@ -52,7 +75,8 @@ RULE_OLD = ("exhaustive product target configuration (module function; method vi
         "attribute with and without create) x replacement kind (DEFAULT, function, classmethod object, staticmethod "
         "object, bound method, callable object, __slots__ callable, callable whose __setattr__ raises TypeError, "
         "non-callable object, non-callable int, new_callable callable / non-callable with autospec=None, new_callable "
-        "with asynq's default autospec) x activation+exit (with normal / by exception, decorator normal / by exception, "
+        "with the signature's own default autospec, @asynq() function / classmethod / staticmethod with a plain or a "
+        "generator body) x activation+exit (with normal / by exception, decorator normal / by exception, "
         "start+stop, start+stopall, start+stop+stop) x replacement returns / raises x patch() / patch.object(); "
         "exhaustive pairs of replacement kinds nested on one target in 6 nesting shapes; random histories over 1-3 "
         "targets and 1-6 patchers (nested / sequential / interleaved blocks, start/stop/stopall, calls with args and "
@@ -69,7 +93,9 @@ RULE = RULE_OLD + (
     "rebind operations in ~25% of the random histories); class decoration (`classdeco`, goes through "
     "_PatchAsync.copy) as a third block style; blocks left by a BaseException-only error; replacement variants "
     "lambda / functools.partial / class object / falsy callable / callable with raising __eq__ / None / falsy value; "
-    "falsy original attribute; family `deep`: 3..24 patches of ONE target open at once in mixed styles")
+    "falsy original attribute; family `deep`: 3..24 patches of ONE target open at once in mixed styles; family "
+    "`shared`: one replacement object given to two patchers; family `enterfail`: new_callable products that take / "
+    "reject attributes x 5 activation styles (judged by Mock.EnterFail)")
 TRUSTED = [
     "hand-written Lean model AsynqModel.Lib.Mock tied to the code by this differential run only",
     "Python harness checks/c19.py (object <-> token identity registry, vars(host) peeks, recursive-descent "
@@ -78,6 +104,12 @@ TRUSTED = [
     "stopall), CPython descriptor protocol / `with` semantics, asynq.decorators for `asynq(sync_fn=new)(new)`",
 ]
 ASSUMPTIONS = [
+    "the replacement object itself is the caller's: `_PatchAsync.__enter__` leaves `.asynq` / `.async` / `.asyncio` "
+    "attributes on a callable object / `@asynq()` function given as `new` and `__exit__` does not remove them (on an "
+    "`@asynq()` function the instance attribute shadows its own `.asynq` method for good: afterwards `fn.asynq(...)` "
+    "runs the function eagerly and returns a ConstFuture).  C19 as stated speaks about the patched TARGET (original "
+    "back in place) and about results while the patch is active, both of which hold; what remains on the "
+    "replacement after the patch has ended is outside the statement and is neither modelled nor checked",
     "replacement functions are ordinary (non-generator) callables that do not return generator objects or "
     "mock.DEFAULT; spec/spec_set/autospec=True/kwargs of patch are not exercised; keyword argument names are never "
     "`self` (CPython: `__call__(self, *args, **kwargs)` of every wrapper, also of asynq's own decorators, rejects it)",
@@ -124,9 +156,14 @@ REPL_CONFIGS = [
     # round 3: unusual objects of the same kinds
     ("func", "lambda", 0), ("callobj", "partial", 0), ("callobj", "class", 0), ("callobj", "falsy", 0),
     ("callobj", "eqraise", 0), ("value", "none", 0), ("value", "falsy", 0),
+    # an `@asynq()` function / `@asynq()` classmethod / staticmethod as the replacement (plain body, or a generator
+    # body that yields another async call first)
+    ("afunc", "", 0), ("afunc", "gen", 0), ("acm", "", 0), ("acm", "gen", 0), ("asm", "", 0),
 ]
+ASYNC_REPLS = {"afunc": "func", "acm": "cm", "asm": "sm"}
 CORE_REPLS = [("default", "", 0), ("func", "", 0), ("cmobj", "", 0), ("smobj", "", 0), ("bound", "", 0),
-              ("callobj", "", 0), ("sealed", "slots", 0), ("value", "plain", 0), (["newCallable", 1], "", 1)]
+              ("callobj", "", 0), ("sealed", "slots", 0), ("value", "plain", 0), (["newCallable", 1], "", 1),
+              ("afunc", "", 0)]
 ACTIVATIONS = ["with", "with-exc", "deco", "deco-exc", "start-stop", "start-stopall", "start-stop-stop"]
 ACTIVATIONS3 = ACTIVATIONS + ["classdeco", "classdeco-exc", "with-base"]
 
@@ -236,7 +273,8 @@ def behav_of(kind, n, raises=False):
 KIND_TARGETS = [TARGET_CONFIGS[0], TARGET_CONFIGS[1], TARGET_CONFIGS[2], TARGET_CONFIGS[3], TARGET_CONFIGS[4],
                 TARGET_CONFIGS[7]]
 KIND_REPLS = [("default", "", 0), ("func", "", 0), ("cmobj", "", 0), ("bound", "", 0), ("callobj", "", 0),
-              ("sealed", "slots", 0), (["newCallable", 1], "", 1), ("callobj", "class", 0)]
+              ("sealed", "slots", 0), (["newCallable", 1], "", 1), ("callobj", "class", 0), ("afunc", "", 0),
+              ("acm", "gen", 0)]
 
 
 def kinds_cases(tier):
@@ -284,7 +322,7 @@ REBIND_PAIRS = [
     (("func", "class", "loc", "inst"), ("attr", "class", "loc", "inst")),
 ]
 REBIND_REPLS = [("default", "", 0), ("func", "", 0), ("callobj", "", 0), ("value", "plain", 0),
-                (["newCallable", 1], "", 1)]
+                (["newCallable", 1], "", 1), ("afunc", "gen", 0)]
 REBIND_SCENARIOS = ["reuse", "fresh-after-rebind", "construct-then-rebind", "rebind-inside"]
 
 
@@ -345,7 +383,7 @@ def deep_cases():
 
 
 SHARED_REPLS = [("func", "", 0), ("cmobj", "", 0), ("bound", "", 0), ("callobj", "", 0), ("callobj", "falsy", 0),
-                ("callobj", "class", 0), ("sealed", "slots", 0), ("value", "plain", 0)]
+                ("callobj", "class", 0), ("sealed", "slots", 0), ("value", "plain", 0), ("afunc", "", 0)]
 
 
 def shared_cases():
@@ -642,8 +680,9 @@ def neighbours(case, rng):
 
 
 def signature(case, v):
-    """WHAT fails: the spec clause; for a failing construction also whether it is the modelled defect (the first
-    new_callable patcher with asynq's default autospec, at a point where model and implementation still agree)"""
+    """WHAT fails: the spec clause; for a failing construction also whether it is the defect repaired by 60e77e0
+    coming back (the first new_callable patcher that leaves `autospec` to the signature's default, at a point where
+    model and implementation still agree) - the signature recorded as `fixed` in known_findings.json"""
     import re
     clause = v.get("spec", "ok")
     extra = ""
@@ -920,6 +959,10 @@ def run_case(case):
     def handle_task():
         return 424242
 
+    @asynq.asynq()
+    def dep_fn(n):
+        return n + 1
+
     def result_obj(r, kind):
         """a NEW object of the given kind standing for result token r (None is the one exception)"""
         if kind == "none":
@@ -1141,7 +1184,8 @@ def run_case(case):
         k = op[0]
         if k == "construct":
             r = op[3]
-            rs = r if isinstance(r, str) else "(newCallable %d)" % r[1]
+            rs = ("(asyncFn %s)" % ASYNC_REPLS[r] if r in ASYNC_REPLS else r) if isinstance(r, str) \
+                else "(newCallable %d)" % r[1]
             return "(construct %d %d %s %d %d %d %s%s)" % (
                 op[1], op[2], rs, op[4], op[5], 1 if op[7] == "object" else 0, behav_sexp(op[6]),
                 "" if share_of(op) is None else " (share %d)" % share_of(op))
@@ -1250,6 +1294,16 @@ def run_case(case):
                     def __call__(self, *a, **k):
                         return do(given, behav, a, k)
             new = Sealed()
+        elif repl in ASYNC_REPLS:
+            # `patch(target, some_other_async_function)`: an AsyncDecorator object (not `inspect.isfunction`)
+            if variant == "gen":
+                def body(*a, **k):
+                    yield dep_fn.asynq(len(a))
+                    return do(given, behav, a, k)
+            else:
+                body = fn
+            kind = ASYNC_REPLS[repl]
+            new = asynq.asynq()(classmethod(body) if kind == "cm" else staticmethod(body) if kind == "sm" else body)
         elif repl == "value":
             if variant == "none" and not none_given:
                 none_given.append(p)
